@@ -127,7 +127,7 @@ def catalogue(tier):
     algs = ["md5", "sha1", "sha224", "sha256", "sha384", "sha512"]
     chv = ["a", "", "\u00e9", "p" * 100, Y(b"a"), Y(b"\xff"), {"$": "digest"}, {"$": "digest-other"}]
     cat.append(("Challenge", [{"hash_algorithm": a, **r} for a in algs + ["SHA256"] for r in ({}, {"required": True})], chv + WRONG))
-    secv = ["secret", "s", "\u00e9\u00e8", "x" * 40, "with \"quotes\" & <xml>", "a\nb"]
+    secv = ["secret", "s", "\u00e9\u00e8", "x" * 40, "with \"quotes\" & <xml>", "a\nb", "k" * 16, "k" * 32, "\u00e9" * 8, "k" * 15 + "\x01", "k" * 31 + "\x10", "k" * 48]
     cat.append(("Secure", [{"method": m} for m in ("aes", "xor", "best")], secv + WRONG))
     lv = ["debug", "INFO", " Warning ", "error", "critical", "trace", "", "warn", "notice", " NOTICE "]
     cat.append(("LogLevel", [{}, {"levels": ["notice", "warn"]}, {"transform_case": "upper", "levels": ["NOTICE"]},
@@ -168,6 +168,11 @@ def container_catalogue(tier):
     for name, vals in items.items():
         lists = [[]] + [[v] for v in vals] + [[a, b] for a in vals[:3] for b in vals[:3]]
         lvals = lists + [T(*l) for l in lists[:6]] + WRONG
+        strs = [v for v in vals if isinstance(v, str)]
+        ints = [v for v in vals if isinstance(v, int) and not isinstance(v, bool)]
+        for src in (strs[:2], strs[1:4], ints[:1], ints[:3]):
+            if src:
+                lvals.append({"$": "sibling-list", "items": src})
         for req in (None, True):
             out.append(("List[%s]" % name, {"k": "List", "item": specs[name], "o": _clean({"required": req})}, lvals))
         dvals = [D()] + [D(("k", v)) for v in vals] + [D(("k", vals[0]), (" K2 ", vals[1]))] + WRONG
@@ -253,13 +258,21 @@ def _mkworld(spec):
     schema = cc.Schema()
     field = R.mk_field(spec)
     schema.f = field
+    schema.gs = cc.ListField(cc.StringField())          # other typed lists of the same configuration (sources of proxies)
+    schema.gi = cc.ListField(cc.IntField())
     cfg = schema()
     return cfg, field
 
 
-def _resolver(field):
+def _resolver(field, cfg=None):
     def resolve(s):
         import cincoconfig as cc
+        if s["$"] == "sibling-list":
+            # the validated value of another typed list field of the same configuration
+            items = [V.dec(x) for x in s["items"]]
+            key = "gi" if all(isinstance(x, int) and not isinstance(x, bool) for x in items) else "gs"
+            setattr(cfg, key, items)
+            return getattr(cfg, key)
         if s["$"] == "digest":
             return cc.DigestValue.create("zz", field.algorithm)
         if s["$"] == "digest-other":
@@ -277,7 +290,7 @@ def _try(fn):
 
 
 def _shape(v):
-    if isinstance(v, dict) and v.get("$") in ("digest", "digest-other"):
+    if isinstance(v, dict) and v.get("$") in ("digest", "digest-other", "sibling-list"):
         return v["$"]
     try:
         d = V.dec(v, lambda s: "digest")
@@ -304,7 +317,7 @@ def _optkey(spec):
 
 def check_pair(ctx, spec, vspec, case):
     cfg, field = _mkworld(spec)
-    res = _resolver(field)
+    res = _resolver(field, cfg)
     value = V.dec(vspec, res)
     ref = R.ref_validate(spec, value)
     if ref[0] == "undef":
